@@ -216,8 +216,11 @@ theorem opWrite_length (e : Endian) (enc : Encoding) (uo : UnitOffs) (hasRefs : 
     obtain ⟨⟨b, f⟩, hb, h2, _⟩ := h
     simp [opSize, ← h2, writeDRef_length _ _ _ _ _ _ _ hb, encodeS_length]; omega
   | .piece n, offsets, pos, bs, fx, h => by
-    simp only [opWrite, Out.ok.injEq, Prod.mk.injEq] at h
-    simp [opSize, ← h.1, encodeU_length]; omega
+    simp only [opWrite] at h
+    split at h
+    · cases h
+    · simp only [Out.ok.injEq, Prod.mk.injEq] at h
+      simp [opSize, ← h.1, encodeU_length]; omega
   | .bitPiece s o, offsets, pos, bs, fx, h => by
     simp only [opWrite, Out.ok.injEq, Prod.mk.injEq] at h
     simp [opSize, ← h.1, encodeU_length]; omega
